@@ -114,7 +114,7 @@ def run_history(build, cfg, history, read_back=True, keep=False):
     -> list of discrepancy strings between the real build and the reference model (empty = agreement)"""
     import numpy as np, h5py
     diffs = []
-    top = tempfile.mkdtemp(prefix='drfreplay-')
+    top = tempfile.mkdtemp(prefix='tmp.drfreplay-')
     ch = os.path.join(top, 'ch'); os.makedirs(ch)
     try:
         comp = 1 if (cfg['cont'] and cfg['chunk']) else 0
